@@ -23,6 +23,8 @@ RULE = ("Expressions from the bundled corpus, auto-corpus, dataset and the speci
 ALPHA = "bcfgjklpqvwxz"
 # words that BEGIN like the optional tail of some pattern (uhr, h, am/pm, ordinal suffixes, units) but that no
 # pattern matches; which of them are really inert is decided at run time with the library's own patterns
+# words that END like the optional first word of some multi-word pattern ('a quarter to', 'just now', 'genau jetzt')
+HEAD_WORDS = ["pizza", "extra", "villa", "adjust", "bright", "ungenau", "gala", "umbra"]
 TAIL_WORDS = ["uhrzeit", "uhrwerk", "hxq", "hzz", "thx", "stq", "ndq", "rdz", "terq", "pmq", "amq", "tagebuch", "hourly", "daysx",
               "mq", "wochenende", "oclockx", "nachtzug", "minutenx", "stundenplan", "monatlich", "weekly", "tenq", "oq", "pq"]
 TRAILING_TOKEN = re.compile(r"(montag|monday|mon|dienstag|tuesday|tue|mittwoch|wednesday|wed|donnerstag|thursday|thu|freitag|"
@@ -150,7 +152,8 @@ def expressions():
              # date-less ranges whose span is wider than their two clock times (lead word, part of day)
              "abends 8-9", "in the evening between 8 and 9", "from 8pm to 9pm", "between 8:00 and 9:30", "von 8 bis 9 uhr",
              "zwischen 14 und 15 Uhr", "evening 8-10", "nachmittags 2 bis 4", "at 8pm", "um 20:15", "gegen 8 uhr", "around 8pm",
-             "1430", "morgen 0930", "am 12.03. 1900", "tomorrow 0930 - 1045"]
+             "1430", "morgen 0930", "am 12.03. 1900", "tomorrow 0930 - 1045", "quarter to eight", "quarter past 8", "half past eight",
+             "now", "jetzt", "right now", "half an hour", "an hour", "a day", "one week"]
     for g in gram:
         out.append(("grammar", g, ref))
     _exprs = out
@@ -165,7 +168,7 @@ def _shard(arg):
     for e in ex:
         byorigin.setdefault(e[0], []).append(e)
     edges = O.edge_dates()
-    tail_ok = [w for w in TAIL_WORDS if not library_matches(w)[1]] or ["qwv"]
+    tail_ok = [w for w in TAIL_WORDS + HEAD_WORDS if not library_matches(w)[1]] or ["qwv"]
     acc.notes["tail-words-inert-alone:" + ",".join(tail_ok)] += 1
     word = st.one_of(st.text(alphabet=ALPHA, min_size=3, max_size=7), st.text(alphabet=ALPHA, min_size=3, max_size=12),
                      st.text(alphabet=ALPHA, min_size=3, max_size=7), st.sampled_from(tail_ok))
